@@ -30,13 +30,23 @@ def wrappers(ctx, ld):
     stages = set(opts.values()) | {'caster'}
     from sa.pathvals import PathValues, subst
     n = 0
+    truth_tested_any = set()
     for p in Enumerator(where=pr.qualname).body_paths(lp):
         n += 1
         pv = PathValues(p)
         flags = {}
+        truth_tested = set()
+        from sa.model import norm_compare as _nc
         for t, pol in pv.guards:
             if pseudo(t) in opts:
                 flags[pseudo(t)] = pol
+                truth_tested.add(pseudo(t))
+            else:
+                t2, pol2 = _nc(t, pol)
+                b_ = match_expr('_o is None', t2)
+                if b_ is not None and b_['_o'] in opts:
+                    flags[b_['_o']] = not pol2            # the option is set when it is not None
+        truth_tested_any |= truth_tested
         ys = [it_.node.value for it_ in p.items if it_.kind == 'stmt' and isinstance(it_.node, ast.Expr)
               and isinstance(it_.node.value, ast.Yield)]
         # what is yielded, with the values known along this path: a nest  limiter(stripper(caster(d, extractor(it))))
@@ -67,6 +77,9 @@ def wrappers(ctx, ld):
         run.check(order_ok, 'WRAP', where(repo, lp), pr.qualname, 'stage order: ' + ' -> '.join(applied),
                   'the row stages of load are not applied in the order extract-missing, cast, strip, limit: limit_rows no longer '
                   'counts the rows that are yielded (rows dropped by the cast policy use up the limit), or markers reach the caster')
+    # limit_rows is a number of rows: 0 is a limit (no rows), so the option is tested against None, not for truth
+    run.check('self.limit_rows' not in truth_tested_any, 'WRAP', where(repo, lp), pr.qualname, 'limit_rows tested with `is not None`',
+              'the limiter is installed only for a truthy limit_rows: load(..., limit_rows=0) yields every row instead of none')
     run.floor('WRAP', n, 2, 'option valuations')
 
 
@@ -125,6 +138,13 @@ def row_wrappers(ctx, ld):
                 how = 'enumerate' if enum else 'counter'
     run.check(ok, 'R12', lim.where, lim.qualname, 'yield row k, stop as soon as k rows were yielded and k >= limit_rows',
               'the limiter does not deliver exactly the first limit_rows rows', detail=how)
+    # ... and none at all for a limit of 0: the yield-then-count loop delivers one row before it looks at the limit, so it needs a
+    # guard in front (islice needs none)
+    zero = how == 'islice' or any(match_stmt(pt_, st_) is not None for st_ in lim.node.body for pt_ in (
+        'if self.limit_rows <= 0:\n    return', 'if self.limit_rows < 1:\n    return', 'if self.limit_rows == 0:\n    return',
+        'if not self.limit_rows:\n    return', 'if self.limit_rows > 0:\n    ...', 'if self.limit_rows >= 1:\n    ...'))
+    run.check(zero, 'R12', lim.where, lim.qualname, 'no row for limit_rows == 0',
+              'the limiter yields a row before it consults the limit: with limit_rows=0 one row is delivered instead of none')
     # the limiter is only installed for a truthy limit (limit 0/None = no limit), checked in WRAP
     stp = ctx.N(ld.methods['stripper'])
     loop, var, _ = observers.single_row_loop(ctx, stp)
